@@ -48,6 +48,12 @@ pub fn builtin_names() -> BTreeSet<String> {
     blots_core::functions::get_built_in_function_idents().into_iter().map(|s| s.to_string()).collect()
 }
 
+/// The built-in names in a fixed (sorted) order.
+fn all_builtin_names() -> &'static Vec<String> {
+    static ALL: std::sync::OnceLock<Vec<String>> = std::sync::OnceLock::new();
+    ALL.get_or_init(|| builtin_names().into_iter().collect())
+}
+
 // ---------------------------------------------------------------------------------------
 // Generator
 // ---------------------------------------------------------------------------------------
@@ -290,10 +296,19 @@ impl<'a> Gen<'a> {
                 (Stmt::Expr(assign(&n, e)), "rebind")
             }
             3 => {
-                let r = *self.rng.pick(&[
-                    "sum", "map", "len", "inputs", "constants", "if", "then", "else", "true", "false", "null", "and", "or", "not",
-                    "do", "return", "output", "sort", "print", "time_now", "range", "keys",
-                ]);
+                // half of the time any of the built-in names (the whole table, so that a test of
+                // the name that is wrong for a few of them is met), else the usual suspects
+                let r: String = if self.rng.chance(1, 2) {
+                    let all = all_builtin_names();
+                    all[self.rng.usize_below(all.len())].clone()
+                } else {
+                    (*self.rng.pick(&[
+                        "sum", "map", "len", "inputs", "constants", "if", "then", "else", "true", "false", "null", "and", "or", "not",
+                        "do", "return", "output", "sort", "print", "time_now", "range", "keys",
+                    ]))
+                    .to_string()
+                };
+                let r = r.as_str();
                 let e = self.data(0).0;
                 if self.rng.chance(1, 5) && !KEYWORDS.contains(&r) {
                     // reserved name shadowed inside a do-block / as a parameter: legal there,
@@ -347,6 +362,10 @@ impl<'a> Gen<'a> {
                     // a reserved non-keyword name (must fail)
                     let target = match self.rng.below(6) {
                         0 => self.bound_any().unwrap_or(n.clone()),
+                        1 if self.rng.chance(1, 2) => {
+                            let all = all_builtin_names();
+                            all[self.rng.usize_below(all.len())].clone()
+                        }
                         1 => (*self.rng.pick(&["sum", "map", "inputs", "constants", "len", "keys", "print", "time_now", "ugt", "to_string"])).to_string(),
                         _ => n.clone(),
                     };
@@ -1925,6 +1944,25 @@ fn mk(stmts: Vec<(Stmt, &str)>) -> Scenario {
     }
 }
 
+/// Every reserved name (each built-in, `inputs`, `constants`, the keywords) as the target of a
+/// top-level assignment, a nested assignment and an `output` assignment, in one session.
+fn reserved_sweep() -> Scenario {
+    let mut stmts: Vec<(Stmt, &str)> = vec![];
+    let mut names: Vec<String> = all_builtin_names().clone();
+    names.push("inputs".into());
+    names.push("constants".into());
+    names.extend(KEYWORDS.iter().map(|k| k.to_string()));
+    for n in &names {
+        stmts.push((Stmt::Expr(E::Raw(format!("{} = 1", n))), "bind-reserved"));
+        stmts.push((Stmt::Expr(E::Raw(format!("[{} = 1]", n))), "bind-reserved-nested"));
+        stmts.push((Stmt::Expr(E::Raw(format!("c = ({} = [1])", n))), "bind-reserved-nested"));
+        stmts.push((Stmt::Output(n.clone(), Some(num(1))), "output-reserved"));
+    }
+    let mut sc = mk(stmts);
+    sc.probe_every = false;
+    sc
+}
+
 pub fn fixed_corpus() -> Vec<(String, Scenario)> {
     let rec_f = |name: &str| {
         Stmt::Expr(assign(
@@ -1967,6 +2005,7 @@ pub fn fixed_corpus() -> Vec<(String, Scenario)> {
             ]),
         ),
     ];
+    v.push(("reserved-sweep".to_string(), reserved_sweep()));
     let dir = format!("{}/regressions", verif_dir());
     if let Ok(rd) = std::fs::read_dir(&dir) {
         let mut files: Vec<_> = rd.filter_map(|e| e.ok()).map(|e| e.path()).collect();
